@@ -8,6 +8,8 @@ Ok(ev) ==
   /\ ~ev.single_panic /\ ev.n_panic = 0
   /\ AbsFinal(ev.frames, ev.single)
   /\ ev.n_diff = 0
+  \* the same stream through beast::receiver into a 2-place queue read late: nothing is lost
+  /\ (ev.rx = 1 => ev.rx_same)
 
 (* the vector itself must be a well-formed stream (guards the generators)  *)
 SelfOk(ev) == /\ \A i \in 1..Len(ev.frames) : WellFormed(ev.frames[i])
